@@ -217,14 +217,18 @@ fn case_regress(doc: &serde_json::Value) -> Outcome {
     let text = print_minimal(&g);
     let mut c = Case::new(text.clone());
     c.evals = 0;
-    for shell in obs::SHELLS {
-        match judge(&g, &text, shell) {
-            Err(f) => return Outcome::Fail(f),
-            Ok(Some((n, _))) => {
-                c.evals += 2;
-                c.nontrivial |= n >= 3;
+    // "repeat": defects that depend on the order of a randomly seeded container show only sometimes
+    let repeat = doc["repeat"].as_u64().unwrap_or(1).max(1);
+    for _ in 0..repeat {
+        for shell in obs::SHELLS {
+            match judge(&g, &text, shell) {
+                Err(f) => return Outcome::Fail(f),
+                Ok(Some((n, _))) => {
+                    c.evals += 2;
+                    c.nontrivial |= n >= 3;
+                }
+                Ok(None) => {}
             }
-            Ok(None) => {}
         }
     }
     c.sample = Some(json!({"text": text}));
@@ -249,11 +253,11 @@ pub fn run(tier: Tier, seed: u64) -> i32 {
             return run.finish();
         }
     }
-    run.random("random", tier.pick(6_000, 200_000), 600, case_random);
+    run.random("random", tier.pick(250_000, 8_000_000), 600, case_random);
     if run.failed() {
         return run.finish();
     }
-    run.random("random-dense", tier.pick(6_000, 200_000), 600, case_dense);
+    run.random("random-dense", tier.pick(200_000, 6_000_000), 600, case_dense);
     run.finish()
 }
 
